@@ -129,6 +129,29 @@ func runUnsetRejected(p *Program, r *RuleResult) {
 						if accessPath(ft.v) == key {
 							nonNil = true
 						}
+					case factNil:
+						// a helper (or local closure) that returned nil for this mode: what
+						// it establishes about its parameter on every nil return
+						call, ok := ft.v.(*ssa.Call)
+						if !ok {
+							continue
+						}
+						h := call.Common().StaticCallee()
+						if h == nil || !p.isFirstParty(h) || len(h.Blocks) == 0 || h == fn {
+							continue
+						}
+						for i, a := range call.Common().Args {
+							if accessPath(a) != key || i >= len(h.Params) {
+								continue
+							}
+							rej, nn := p.modeGuardSummary(h, h.Params[i])
+							for n := range rej {
+								rejected[n] = true
+							}
+							if nn {
+								nonNil = true
+							}
+						}
 					}
 				}
 				for s := range special {
@@ -149,86 +172,78 @@ func runUnsetRejected(p *Program, r *RuleResult) {
 	}
 }
 
+// modeGuardSummary: on every return of h that may hand back nil, which dynamic types of the
+// mode parameter have been excluded (failed comma-ok assertions) and is it known non-nil?
+func (p *Program) modeGuardSummary(h *ssa.Function, prm *ssa.Parameter) (rejected map[string]bool, nonNil bool) {
+	view := p.View(h)
+	first := true
+	for _, b := range view.Blocks() {
+		ins := view.Instrs(b)
+		ret, ok := ins[len(ins)-1].(*ssa.Return)
+		if !ok || len(ret.Results) != 1 || isErrorValue(ret.Results[0], view, b, map[ssa.Value]bool{}) {
+			continue
+		}
+		rej := map[string]bool{}
+		nn := false
+		for ft := range view.FactsAt(b) {
+			switch ft.k {
+			case factFalse:
+				if ex, ok := ft.v.(*ssa.Extract); ok && ex.Index == 1 {
+					if ta, ok := ex.Tuple.(*ssa.TypeAssert); ok && ta.X == ssa.Value(prm) {
+						if n := namedOf(ta.AssertedType); n != nil {
+							rej[n.Obj().Name()] = true
+						}
+					}
+				}
+			case factNonNil:
+				if ft.v == ssa.Value(prm) {
+					nn = true
+				}
+			}
+		}
+		if first {
+			rejected, nonNil, first = rej, nn, false
+			continue
+		}
+		for n := range rejected {
+			if !rej[n] {
+				delete(rejected, n)
+			}
+		}
+		nonNil = nonNil && nn
+	}
+	if first {
+		return nil, false
+	}
+	return rejected, nonNil
+}
+
 func runRecComplete(p *Program, r *RuleResult) {
 	methods := []string{"checkTypeLabels", "checkTypeModalities", "assignUnsetModalities"}
 	for _, T := range p.sessionTypeImplementers() {
 		for _, mn := range methods {
 			fn := p.Method(T, mn)
-			view := p.View(fn)
 			recv := fn.Params[0].Name()
-			hasErr := fn.Signature.Results().Len() == 1
-			// success returns
-			var succ []*ssa.Return
-			for _, b := range view.Blocks() {
-				ins := view.Instrs(b)
-				ret, ok := ins[len(ins)-1].(*ssa.Return)
-				if !ok {
-					continue
-				}
-				if hasErr && isErrorValue(ret.Results[0], view, b, map[ssa.Value]bool{}) {
-					continue
-				}
-				succ = append(succ, ret)
-			}
 			nChildren := 0
 			for _, f := range structFields(T) {
-				var key string
+				isSlice := false
 				switch {
 				case isSessionTypeType(f.Type()):
-					key = recv + "." + f.Name()
 				case isOptionSlice(f.Type()):
-					key = recv + "." + f.Name() + "[].SessionType"
+					isSlice = true
 				default:
 					continue
 				}
 				nChildren++
 				construct := mn + ":child:" + f.Name()
-				var calls []ssa.Instruction
-				for _, c := range p.callsIn(fn) {
-					com := c.Common()
-					if com.IsInvoke() && com.Method.Name() == mn && accessPath(com.Value) == key {
-						calls = append(calls, c)
-					}
-				}
-				if len(calls) == 0 {
+				never, bad := p.childVisited(fn, recv+"."+f.Name(), isSlice, mn, 0)
+				switch {
+				case never:
 					// leaf behaviour allowed only for early returns on "already has a mode" in assign; otherwise violated
 					r.add(fnName(fn), construct, Violated, p.pos(fn.Pos()), fmt.Sprintf("%s never recurses into child %s: that part of the type is not checked/assigned", mn, f.Name()))
-					continue
-				}
-				isCall := func(in ssa.Instruction) bool {
-					for _, c := range calls {
-						if c == in {
-							return true
-						}
-					}
-					return false
-				}
-				bad := ""
-				for _, ret := range succ {
-					// a return whose value IS the recursive call counts
-					if view.passedBefore(ret, isCall) {
-						continue
-					}
-					if isOptionSlice(f.Type()) {
-						// the loop over the options may run zero times: require the loop header before the return
-						inLoop := false
-						for _, l := range view.Loops() {
-							if l.Body[calls[0].Block()] {
-								hdr := l.Header
-								if view.passedBefore(ret, func(in ssa.Instruction) bool { return in.Block() == hdr }) {
-									inLoop = true
-								}
-							}
-						}
-						if inLoop {
-							continue
-						}
-					}
-					bad = fmt.Sprintf("the success return at %s can be reached without visiting child %s", p.instrPos(ret), f.Name())
-				}
-				if bad != "" {
-					r.add(fnName(fn), construct, Violated, p.pos(fn.Pos()), bad)
-				} else {
+				case bad != "":
+					r.add(fnName(fn), construct, Violated, p.pos(fn.Pos()), strings.ReplaceAll(bad, "CHILD", f.Name()))
+				default:
 					r.add(fnName(fn), construct, Holds, p.pos(fn.Pos()), "")
 				}
 			}
@@ -237,6 +252,94 @@ func runRecComplete(p *Program, r *RuleResult) {
 			}
 		}
 	}
+}
+
+// childVisited: does fn apply method mn to the child held in `base` (a session type, or for
+// isSlice the types of a slice of options) before every success return? The visit may be the
+// invoke itself or a call of a first-party helper that is handed the child and visits it in
+// the same sense. never: no visit at all; bad: a success return that can avoid it.
+func (p *Program) childVisited(fn *ssa.Function, base string, isSlice bool, mn string, depth int) (never bool, bad string) {
+	view := p.View(fn)
+	hasErr := fn.Signature.Results().Len() == 1
+	var succ []*ssa.Return
+	for _, b := range view.Blocks() {
+		ins := view.Instrs(b)
+		ret, ok := ins[len(ins)-1].(*ssa.Return)
+		if !ok {
+			continue
+		}
+		if hasErr && isErrorValue(ret.Results[0], view, b, map[ssa.Value]bool{}) {
+			continue
+		}
+		succ = append(succ, ret)
+	}
+	key := base
+	if isSlice {
+		key = base + "[].SessionType"
+	}
+	var calls []ssa.Instruction
+	var direct []ssa.Instruction
+	for _, c := range p.callsIn(fn) {
+		com := c.Common()
+		if com.IsInvoke() && com.Method.Name() == mn && accessPath(com.Value) == key {
+			calls = append(calls, c)
+			direct = append(direct, c)
+			continue
+		}
+		h := com.StaticCallee()
+		if h == nil || !p.isFirstParty(h) || len(h.Blocks) == 0 || depth >= 2 || h == fn {
+			continue
+		}
+		for i, a := range com.Args {
+			if accessPath(a) != base || i >= len(h.Params) {
+				continue
+			}
+			// the helper must hand back an error where the method does, so that a failed
+			// visit is not lost (its result is judged by R-ERR rules at the call site)
+			if nv, bd := p.childVisited(h, h.Params[i].Name(), isSlice, mn, depth+1); !nv && bd == "" {
+				calls = append(calls, c)
+			}
+		}
+	}
+	if len(calls) == 0 {
+		return true, ""
+	}
+	isCall := func(in ssa.Instruction) bool {
+		for _, c := range calls {
+			if c == in {
+				return true
+			}
+		}
+		return false
+	}
+	for _, ret := range succ {
+		// a return whose value IS the recursive call counts
+		if view.passedBefore(ret, isCall) {
+			continue
+		}
+		if rc, ok := ret.Results, true; ok && len(rc) == 1 {
+			if ci, isI := rc[0].(ssa.Instruction); isI && isCall(ci) {
+				continue
+			}
+		}
+		if isSlice && len(direct) > 0 {
+			// the loop over the options may run zero times: require the loop header before the return
+			inLoop := false
+			for _, l := range view.Loops() {
+				if l.Body[direct[0].Block()] {
+					hdr := l.Header
+					if view.passedBefore(ret, func(in ssa.Instruction) bool { return in.Block() == hdr }) {
+						inLoop = true
+					}
+				}
+			}
+			if inLoop {
+				continue
+			}
+		}
+		bad = fmt.Sprintf("the success return at %s can be reached without visiting child CHILD", p.instrPos(ret))
+	}
+	return false, bad
 }
 
 // shiftDirection: the table method a shift constructor must be gated by.
